@@ -395,6 +395,9 @@ class _StickySink:
         """Register a session via the callback; stash the minted token for the response."""
         token = self._open_callback(state, ttl)
         self.mint_token = token
+        # An open after a close in the same request supersedes the close: the
+        # response must not tell the client to drop the token it is about to get.
+        self.closed = False
         # _open_callback set _current_session_context — capture the new id
         # from there. We could equally have _open_callback return it, but
         # the contextvar is the single source of truth right after open.
